@@ -307,6 +307,80 @@ pub fn rec_history(a: &Args, out: &mut Out) {
             }
         }
     }
+    // every ordered pair of frames at / next to the maximum length on one builder (what the last buffer bytes keep from the
+    // previous build: its checksum, its last body bytes), and each of them after a short frame
+    let nm = near_max_messages(&mut r);
+    let short = pool.iter().find(|m| bit_length_of(m).map(|(_, f)| f < 40).unwrap_or(false)).cloned();
+    for (i, x) in nm.iter().enumerate() {
+        for (j, y) in nm.iter().enumerate() {
+            out.emit(json!({"ev": "NewBuilder"}));
+            let mut b = MessageBuilder::new();
+            record_build(&mut b, &x.2, out, json!({"nearmax": [x.0, x.1]}));
+            record_build(&mut b, &y.2, out, json!({"nearmax": [y.0, y.1]}));
+            if i == j {
+                if let Some(s) = &short {
+                    record_build(&mut b, s, out, json!({}));
+                    record_build(&mut b, &y.2, out, json!({"nearmax": [y.0, y.1]}));
+                }
+            }
+        }
+    }
+}
+
+/// messages whose frames are at / next to the maximum length (body 1017..=1023 bytes), one per distinct (body bytes, padding bits):
+/// 1059 lists filled to the container capacity over 50..=63 satellites, and list messages at capacity
+pub fn near_max_messages(r: &mut StdRng) -> Vec<(usize, usize, Message)> {
+    use crate::special_msm::{bias_message, SSR_GPS};
+    let mut found: Vec<(usize, usize, Message)> = vec![];
+    let mut consider = |m: Message, found: &mut Vec<(usize, usize, Message)>| {
+        if let Some((bits, flen)) = bit_length_of(&m) {
+            let body = flen - 6;
+            if body >= 1017 && !found.iter().any(|f| f.0 == body && f.1 == bits % 8) {
+                found.push((body, bits % 8, m));
+            }
+        }
+    };
+    for nsat in (50usize..=63).rev() {
+        for total in (376usize..=390).rev() {
+            if found.len() >= 6 {
+                break;
+            }
+            let mut es: Vec<(u8, u8, char, f32)> = vec![];
+            'fill: for round in 0..SSR_GPS.len() {
+                for s in 0..nsat {
+                    if es.len() >= total {
+                        break 'fill;
+                    }
+                    let g = SSR_GPS[round];
+                    es.push((s as u8, g.0, g.1, ((es.len() as i32 % 16000) - 8000) as f32 * 0.01));
+                }
+            }
+            if es.len() == total {
+                if let Ok(m) = bias_message(r, 1059, &es) {
+                    consider(m, &mut found);
+                }
+            }
+        }
+    }
+    for (num, cap) in [(1057u16, 60usize), (1063, 60), (1058, 63), (1064, 63)] {
+        for _ in 0..4 {
+            if let Some(t) = template(r, num) {
+                let mut v = msg_to_v(&t);
+                if let Some(xs) = v.field_mut("satellites").and_then(|s| s.as_seq_mut()) {
+                    if xs.is_empty() {
+                        continue;
+                    }
+                    let proto = xs.clone();
+                    *xs = (0..cap).map(|i| proto[i % proto.len()].clone()).collect();
+                }
+                if let Ok(m) = v_to_msg(&v) {
+                    consider(m, &mut found);
+                    break;
+                }
+            }
+        }
+    }
+    found
 }
 
 // ---------------------------------------------------------------- C12: spec-generated histories
